@@ -552,6 +552,12 @@ func relayScenario(s *verifsim.Sim) {
 		}
 		if s.Step >= s.MaxSteps {
 			s.Probe("step-budget-exhausted")
+			// bounded liveness: both peers give up after at most a few simulated minutes; a
+			// connection handler still running 15 minutes after it accepted is wedged
+			if !o.hDone && o.tAccept >= 0 && s.Now()-o.tAccept > 15*time.Minute {
+				s.Failf("c05-handler-never-returns", "port=%d mode=%v hello=%v: handleConn accepted at %v and has not returned at %v although both peers have long gone (client done=%v, server done=%v); live tasks: %v", port, dialMode, helloKind(hello), o.tAccept, s.Now(), o.cliDone, o.srvDone, s.LiveTasks("handle"))
+				return
+			}
 			cancel()
 			cli.Close()
 			if srv != nil {
